@@ -23,8 +23,13 @@ def ob(name, entry, enforce, replace, stub=True, **kw):
     return o
 
 
+WOVEN_ARITH = {"weave": "@repo/src/blake2/blake2b.c", "out": "blake2b_woven.c", "header": True,
+               "loops": [{"function": "blake2b_update", "expect_loops": 1, "loops": {"0": "RXV_UPDATE_LOOP_INVARIANT_ARITH"}}]}
 OBLIGATIONS = [
-    ob("update_contract", "h_update", "randomx_blake2b_update", ["blake2b_compress"], loop_contracts=True,
+    dict(ob("update_arith_contract", "h_update", "randomx_blake2b_update/rxv_update_arith", ["blake2b_compress"], loop_contracts=True,
+            expect_classes=["postcondition", "loop_invariant_base", "loop_invariant_step"], weight=5),
+         files=[WOVEN_ARITH, "harness_blake2b.c", "ghost_blake2b.c", "@stubs/memstub.c"]),
+    ob("update_contract", "h_update", "randomx_blake2b_update", ["blake2b_compress"], loop_contracts=True, tier="thorough", timeout=7200,
        expect_classes=["postcondition", "loop_invariant_base", "loop_invariant_step"], weight=5),
     ob("final_contract", "h_final", "randomx_blake2b_final", ["blake2b_compress"],
        unwindset=["memcpy.0:9", "memset.0:17", "randomx_blake2b_final.0:9"]),
